@@ -1,5 +1,75 @@
-(* C12 - property theorems only *)
-From VT Require Import Check.C12Check.
-Theorem C12_placeholder : forall h : hcase, c12_eval h = c12_eval h.
-Proof. reflexivity. Qed.
-Print Assumptions C12_placeholder.
+(* C12 - property theorems only.  Inv is the reachable-state invariant (C11_inv); has_actions c
+   = false: handlers have no scripted API calls (what a handler legitimately invoked for the
+   client does through the API is outside the claim); benign_event_name: the frame does not carry
+   an event literally named "disconnect" (C12_reserved_event_refuted shows why). *)
+From VT Require Import Server.Isolation.
+
+Theorem C12_frame_local : forall c s e payload tbl,
+  has_actions c = false -> Inv s -> benign_event_name c s e payload (table_loads tbl) ->
+  c12_step c s (EioMessage e payload tbl) (snd (step c s (EioMessage e payload tbl))) = true.
+Proof. exact C12_frame_local_lemma. Qed.
+Print Assumptions C12_frame_local.
+
+Theorem C12_frame_local_view : forall c s e payload tbl,
+  has_actions c = false -> Inv s -> benign_event_name c s e payload (table_loads tbl) ->
+  osame e s (fst (step c s (EioMessage e payload tbl))) /\
+  Forall (Eok s e) (snd (step c s (EioMessage e payload tbl))).
+Proof. exact step_message_local. Qed.
+Print Assumptions C12_frame_local_view.
+
+Theorem C12_others_unchanged : forall e s s', osame e s s' -> others_unchanged e s s' = true.
+Proof. exact osame_others_unchanged. Qed.
+Print Assumptions C12_others_unchanged.
+
+Theorem C12_run : forall c ops,
+  has_actions c = false -> Forall op_ok ops -> benign_ops c srv_init ops ->
+  all_steps (c12_step c) c srv_init ops (snd (run c srv_init ops)) = true.
+Proof. exact C12_run_lemma. Qed.
+Print Assumptions C12_run.
+
+Theorem C12_undecodable : forall c s e payload tbl x,
+  aget str_eqb (binpkt s) e = None -> decode (table_loads tbl) payload = Err x ->
+  step c s (EioMessage e payload tbl) = (s, []).
+Proof. exact C12_undecodable_lemma. Qed.
+Print Assumptions C12_undecodable.
+
+Theorem C12_guard_count : forall loads c0 ds rest,
+  forallb is_digit ds = true -> (10 < List.length ds)%nat ->
+  decode_str loads (c0 :: ds ++ 45 :: rest) = Err ValueError.
+Proof. exact C12_guard_count_lemma. Qed.
+Print Assumptions C12_guard_count.
+
+Theorem C12_guard_id : forall loads c0 ds rest,
+  forallb is_digit ds = true -> (100 < List.length ds)%nat ->
+  decode_str loads (c0 :: ds ++ rest) = Err ValueError.
+Proof. exact C12_guard_id_lemma. Qed.
+Print Assumptions C12_guard_id.
+
+Theorem C12_guard_id_ns : forall loads c0 nsr ds rest,
+  existsb (N.eqb 44) nsr = false -> forallb is_digit ds = true -> (100 < List.length ds)%nat ->
+  decode_str loads (c0 :: (47 :: nsr) ++ 44 :: ds ++ rest) = Err ValueError.
+Proof. exact C12_guard_id_ns_lemma. Qed.
+Print Assumptions C12_guard_id_ns.
+
+Theorem C12_bounded_state : forall c s e payload tbl,
+  Inv s -> binpkt_bounded e (binpkt s) (binpkt (fst (step c s (EioMessage e payload tbl)))).
+Proof. exact C12_bounded_state_lemma. Qed.
+Print Assumptions C12_bounded_state.
+
+Theorem C12_attachment_grows : forall r a r' fin,
+  add_attachment r a = Ok (r', fin) -> List.length (ratts r') = S (List.length (ratts r)).
+Proof. exact add_attachment_grows. Qed.
+Print Assumptions C12_attachment_grows.
+
+Theorem C12_reserved_event_refuted :
+  exists c s o, has_actions c = false /\ Inv s /\
+                calls_of (snd (step c s o)) = [(2%N, [])] /\ c12_step c s o (snd (step c s o)) = false.
+Proof. exact Isolation.C12_reserved_event_refuted. Qed.
+Print Assumptions C12_reserved_event_refuted.
+
+Theorem C12_example :
+  Inv x_state /\
+  c12_step x_cfg x_state x_frame_event (snd (step x_cfg x_state x_frame_event)) = true /\
+  c12_step x_cfg x_state x_frame_disc (snd (step x_cfg x_state x_frame_disc)) = true.
+Proof. exact (conj x_state_Inv (conj (proj2 x_frame_event_local) (proj2 (proj2 x_frame_disc_local)))). Qed.
+Print Assumptions C12_example.
